@@ -118,6 +118,27 @@ def run_history(rng, length, quick):
             l1.append(w.real(v)); step({"op": "append", "o": 2, "val": v})
         if rng.random() < 0.5:
             c1["b"] = l1; step({"op": "set", "o": 1, "key": "b", "val": {"t": "ref", "o": 2}})
+    # a list held directly by a list (what Array(n, Array(m, Struct(...))) returns): records below it are found like any other
+    if rng.random() < 0.35:
+        l2 = cs.ListContainer(); w.reg(l2); step({"op": "newL"})
+        o2 = len(w.objs)
+        k = rng.choice(["a", "b"]); v = rng.choice([V.VInt(11), V.VInt(12), V.VStr("y")])
+        c2[k] = w.real(v); step({"op": "set", "o": 3, "key": k, "val": v})
+        for v in rng.sample([{"t": "ref", "o": 3}, V.VInt(5), {"t": "ref", "o": 3}], rng.choice([1, 2, 3])):
+            l2.append(w.real(v)); step({"op": "append", "o": o2, "val": v})
+        l1.append(l2); step({"op": "append", "o": 2, "val": {"t": "ref", "o": o2}})
+        if rng.random() < 0.5 and "b" not in c1:
+            c1["b"] = l1; step({"op": "set", "o": 1, "key": "b", "val": {"t": "ref", "o": 2}})
+        for o in (2, 1, 2):
+            pat = rng.choice(["a", "b", ".*", "[ab]"])
+            match = [kk for kk in KEYS if re.compile(pat).match(kk)]
+            allr = rng.random() < 0.6
+            try:
+                res = w.objs[o - 1].search_all(pat) if allr else w.objs[o - 1].search(pat)
+            except Exception:
+                res = None
+            resj = [w.val(x) for x in (res or [])] if allr else ([] if res is None else [w.val(res)])
+            step({"op": "search_all" if allr else "search", "o": o, "pat": pat, "match": match, "res": resj})
     # plain Python values that user code puts into containers (searched by key, never descended into)
     plain = rng.random() < 0.5
     if plain:
